@@ -105,6 +105,8 @@ type policyConnPool struct {
 
 	mu            sync.RWMutex
 	hostConnPools map[string]*hostConnPool
+	// closed is set by Close; no host pools are created afterwards. Protected by mu.
+	closed bool
 }
 
 func connConfig(cfg *ClusterConfig) (*ConnConfig, error) {
@@ -246,6 +248,7 @@ func (p *policyConnPool) getPool(host *HostInfo) (pool *hostConnPool, ok bool) {
 func (p *policyConnPool) Close() {
 	p.mu.Lock()
 	defer p.mu.Unlock()
+	p.closed = true
 
 	// close the pools
 	for addr, pool := range p.hostConnPools {
@@ -257,6 +260,11 @@ func (p *policyConnPool) Close() {
 func (p *policyConnPool) addHost(host *HostInfo) {
 	hostID := host.HostID()
 	p.mu.Lock()
+	if p.closed {
+		// the session is closing or closed: a pool created now would never be closed
+		p.mu.Unlock()
+		return
+	}
 	pool, ok := p.hostConnPools[hostID]
 	if !ok {
 		pool = newHostConnPool(
